@@ -73,7 +73,12 @@ def float_decorator(size, id_):
             except (OverflowError, struct.error):
                 shown = value if isinstance(value, float) or abs(value) < (1 << 128) else "a number of %d bits" % value.bit_length()
                 raise ProphyError("value: {} out of {}B float's bounds".format(shown, size))
-            return float(value) if isinstance(value, bool) else value
+            if isinstance(value, bool):
+                return float(value)
+            """ other subclasses of int and float (IntEnum, re.RegexFlag) are stored as the plain number they encode as """
+            if isinstance(value, float):
+                return value if type(value) is float else float(value)
+            return value if type(value) in (int, long) else int(value)
 
         cls._check = check
 
